@@ -367,6 +367,9 @@ func sameAssociativeOperator(op *token.Token, right Node) bool {
 
 func (i InfixExpression) PrettyPrint(out *PrintState) *PrintState {
 	needParen, oldPrecedence := out.needParen(i.Token)
+	if i.Right == nil {
+		needParen = false // the open ended n: is only understood right before the ] as in x / ["a":], not as (n:)
+	}
 	if needParen {
 		out.Print("(")
 	}
